@@ -133,3 +133,36 @@ Theorem more_fuel_changes_nothing : forall sy pp f s rs, stack s = [] -> enough_
   run f sy pp s rs = run (enough_fuel sy) sy pp s rs.
 Proof. exact EngineFuel.run_fuel_irrelevant. Qed.
 Print Assumptions more_fuel_changes_nothing.
+
+(** ** Tie to the regenerated structure of Variable.get_formula
+
+    coq/gen/GuardsFormula.v is re-emitted on every run from the Python text of
+    Variable.get_formula (harness/gen_tables.py, fail-closed): the tests before the scan
+    ([gen_formula_guard]: no formulas -> None; no period -> the oldest; no instant -> None;
+    [end] set and the instant after it -> None) and the scan ([gen_formula_scan]: over the
+    reversed start dates, the first one <= the instant).  coq/model/GuardsFormulaSem.v
+    re-assembles the function from these pieces ([run_scan], [first_match]); it is the
+    [formula_at] of the evaluator the theorems above are about, whose [latest_formula] scans
+    the ascending list and keeps the last match. *)
+From Verif Require Import GuardsTypes GuardsFormula GuardsFormulaSem GuardsFormulaProofs.
+
+Theorem source_get_formula_is_model_formula_at :
+  (forall x p,
+     formula_at x p
+     = let fs := v_formulas x in
+       let d := p_start p in
+       let has := match fs with [] => false | _ => true end in
+       let answer :=
+         match gen_formula_guard has false false
+                 (match v_end x with Some _ => true | None => false end)
+                 (match v_end x with Some e => date_ltb e d | None => false end) with
+         | FNone => None
+         | FOldest => option_map snd (hd_error fs)
+         | FScan => run_scan gen_formula_scan fs d
+         end in
+       if has && negb (validb d) then Err EValue else Ok answer)
+  /\ (forall fs d acc,
+        latest_formula fs d acc
+        = match first_match CmpLe (rev fs) d with Some e => Some e | None => acc end).
+Proof. exact (conj formula_at_is_source latest_is_first_of_reversed). Qed.
+Print Assumptions source_get_formula_is_model_formula_at.
